@@ -944,4 +944,778 @@ theorem sim_restart {S W X : List Nat} {c c' : Cl} (h : Eqv S W X c c') : ERes S
   rw [hp]
   refine eres_ite (fun _ => eres_mk ⟨s, k, r, _, rfl, hs, hk, hr, hm.zero⟩) (fun _ => eres_mk ⟨s, k, r, m, rfl, hs, hk, hr, hm⟩)
 
+/-! ## the invariant the one-sided steps need: a pending commit ⇒ the current epoch's secret is stored
+
+  Staging a commit (`self_update`, `update_group_data`, `add_members`, `remove_members`, the admin's auto-commit of a leave)
+  calls `exporter_secret()` first; every snapshot is taken of a state in which `exporter_secret()` has just run. -/
+
+def PendOK (g : GState) : Prop := g.pending.isSome = true → HasCur g
+
+instance (g : GState) : Decidable (PendOK g) := by unfold PendOK; infer_instance
+
+def SecInv (c : Cl) : Prop := PendOK c.g ∧ ∀ s ∈ c.mgr, PendOK s.saved
+
+instance (c : Cl) : Decidable (SecInv c) := by unfold SecInv; infer_instance
+
+theorem pendOK_ensure (g : GState) : PendOK (ensureSecret g) := fun _ => hasCur_ensureSecret g
+
+theorem pendOK_congr {g g' : GState} (hp : g'.pending = g.pending) (hpath : g'.path = g.path) (hs : g'.secrets = g.secrets)
+    (h : PendOK g) : PendOK g' := by
+  unfold PendOK HasCur at *
+  rw [hp, hpath, hs]; exact h
+
+theorem pendOK_of_none {g : GState} (h : g.pending = none) : PendOK g := by
+  intro hp; rw [h] at hp; cases hp
+
+theorem pendOK_syncRec {g : GState} (h : PendOK g) : PendOK (syncRec g) := pendOK_congr rfl rfl rfl h
+
+theorem pendOK_updLast {g : GState} (mid t : Nat) (h : PendOK g) : PendOK (updLast g mid t) := by
+  unfold updLast
+  split
+  · exact pendOK_congr rfl rfl rfl h
+  · split
+    · exact pendOK_congr rfl rfl rfl h
+    · exact h
+
+theorem pendOK_mergeCommit {g : GState} (mp : Nat) (e : Ev) (h : PendOK g) : PendOK (mergeCommit mp g e) := by
+  unfold mergeCommit
+  cases e.kind with
+  | commit b sw => exact pendOK_of_none rfl
+  | leave => exact h
+  | app a b c => exact h
+
+theorem secInv_setRec (c : Cl) (n : Nat) (r : Rec) (h : SecInv c) : SecInv (setRec c n r) := h
+theorem secInv_recordFailure (c : Cl) (n : Nat) (b : Bool) (e : Option Nat) (h : SecInv c) : SecInv (recordFailure c n b e) := h
+theorem secInv_withSecret (c : Cl) (h : SecInv c) : SecInv (withSecret c) := ⟨pendOK_ensure c.g, h.2⟩
+
+theorem secInv_mgrCreate (c : Cl) (ep : Nat) (e : Ev) (h : SecInv c) : SecInv (mgrCreate c ep e) := by
+  refine ⟨h.1, ?_⟩
+  intro s hs'
+  simp only [mgrCreate] at hs'
+  have := List.mem_of_mem_drop hs'
+  rcases List.mem_append.mp this with hm | hm
+  · exact h.2 s hm
+  · simp at hm; subst hm; exact h.1
+
+theorem secInv_rollbackTo (c c1 : Cl) (ep : Nat) (h : SecInv c) (hr : rollbackTo c ep = some c1) : SecInv c1 := by
+  unfold rollbackTo at hr
+  split at hr
+  · cases hr
+  · rename_i i _
+    split at hr
+    · cases hr
+    · rename_i s rest hd
+      cases hr
+      have hs : s ∈ c.mgr := List.mem_of_mem_drop (by rw [hd]; simp)
+      exact ⟨h.2 s hs, fun t ht => h.2 t (List.mem_of_mem_take ht)⟩
+
+theorem secInv_returnOwnCommit (c : Cl) (h : SecInv c) : SecInv (returnOwnCommit c).1 := ⟨pendOK_syncRec h.1, h.2⟩
+
+theorem secInv_notBetterResult (c : Cl) (e : Ev) (h : SecInv c) : SecInv (notBetterResult c e).1 := by
+  unfold notBetterResult
+  split
+  · split
+    · exact secInv_returnOwnCommit c h
+    · exact h
+  · exact h
+
+theorem secInv_ownMessage (c : Cl) (e : Ev) (h : SecInv c) : SecInv (ownMessage c e).1 := by
+  unfold ownMessage
+  repeat' split
+  all_goals first | exact h | exact secInv_returnOwnCommit c h | exact ⟨h.1, h.2⟩
+
+theorem secInv_storeApp (c : Cl) (e : Ev) (m t k : Nat) (h : SecInv c) : SecInv (storeApp c e m t k).1 :=
+  ⟨pendOK_updLast m t h.1, h.2⟩
+
+theorem secInv_processCommit (c : Cl) (e : Ev) (b : Body) (sw : List Nat) (h : SecInv c) : SecInv (processCommit c e b sw).1 := by
+  unfold processCommit
+  split
+  · exact h
+  · split
+    · exact ⟨pendOK_congr (g := mergeCommit c.maxPast (mgrCreate c (epochOf c.g.path) e).g e) rfl rfl rfl
+        (pendOK_mergeCommit _ e h.1), (secInv_mgrCreate c _ e h).2⟩
+    · exact ⟨pendOK_syncRec (pendOK_ensure _), (secInv_mgrCreate c _ e h).2⟩
+
+theorem secInv_wrongEpochCommit (retry : Cl → Option (Cl × Res)) (c : Cl) (e : Ev) (ee : Nat) (h : SecInv c)
+    (hretry : ∀ c1 r, SecInv c1 → retry c1 = some r → SecInv r.1) : SecInv (wrongEpochCommit retry c e ee).1 := by
+  unfold wrongEpochCommit
+  split
+  · split
+    · rename_i c1 hr
+      split
+      · rename_i r hrr
+        exact hretry c1 r (secInv_rollbackTo c c1 ee h hr) hrr
+      · exact secInv_notBetterResult c e h
+    · exact secInv_notBetterResult c e h
+  · exact secInv_notBetterResult c e h
+
+theorem secInv_step1 (retry : Cl → Option (Cl × Res)) (nx : Nat) (c : Cl) (e : Ev) (h : SecInv c)
+    (hretry : ∀ c1 r, SecInv c1 → retry c1 = some r → SecInv r.1) : SecInv (step1 retry nx c e).1 := by
+  have hw := secInv_withSecret c h
+  unfold step1
+  split
+  · exact h
+  · split
+    · exact h
+    · simp only
+      split
+      · exact hw
+      · split
+        · -- commit
+          split
+          · exact secInv_wrongEpochCommit retry _ e _ hw hretry
+          · split
+            · split
+              · exact ⟨pendOK_syncRec (pendOK_ensure _), (secInv_mgrCreate _ _ e hw).2⟩
+              · exact secInv_ownMessage _ e hw
+            · split
+              · exact hw
+              · exact secInv_processCommit _ e _ _ ⟨pendOK_congr rfl rfl rfl hw.1, hw.2⟩
+        · -- leave
+          split
+          · exact hw
+          · split
+            · exact secInv_ownMessage _ e hw
+            · split
+              · exact hw
+              · split
+                · exact ⟨pendOK_ensure _, hw.2⟩
+                · exact ⟨pendOK_congr rfl rfl rfl hw.1, hw.2⟩
+        · -- app
+          split
+          · exact hw
+          · split
+            · exact hw
+            · split
+              · exact secInv_ownMessage _ e hw
+              · split
+                · exact hw
+                · exact secInv_storeApp _ e _ _ _ ⟨pendOK_congr rfl rfl rfl hw.1, hw.2⟩
+
+theorem secInv_deliverOnce (retry : Cl → Option (Cl × Res)) (nx : Nat) (c : Cl) (e : Ev) (h : SecInv c)
+    (hretry : ∀ c1 r, SecInv c1 → retry c1 = some r → SecInv r.1) : SecInv (deliverOnce retry nx c e).1 := by
+  unfold deliverOnce
+  split
+  · split
+    · exact h
+    · exact secInv_step1 retry nx c e h hretry
+  · exact secInv_step1 retry nx c e h hretry
+
+theorem secInv_deliverN (fuel nx : Nat) (c : Cl) (e : Ev) (h : SecInv c) : SecInv (deliverN fuel nx c e).1 := by
+  induction fuel generalizing c with
+  | zero => exact secInv_deliverOnce _ nx c e h (by intro c1 r _ hr; cases hr)
+  | succ f ih =>
+    apply secInv_deliverOnce _ nx c e h
+    intro c1 r hc1 hr
+    cases hr
+    exact ih c1 hc1
+
+theorem secInv_send (c : Cl) (n ts idn mid mts tok : Nat) (h : SecInv c) : SecInv (send c n ts idn mid mts tok).1 := by
+  unfold send
+  repeat' split
+  all_goals first | exact h | exact ⟨pendOK_updLast _ _ (pendOK_ensure _), h.2⟩
+
+theorem secInv_stageCommit (c : Cl) (n ts idn : Nat) (b : Body) (na : Bool) (h : SecInv c) : SecInv (stageCommit c n ts idn b na).1 := by
+  unfold stageCommit
+  repeat' split
+  all_goals first | exact h | exact ⟨fun _ => hasCur_ensureSecret c.g, h.2⟩
+
+theorem secInv_updateData (c : Cl) (n ts idn : Nat) (u : DataUpd) (h : SecInv c) : SecInv (updateData c n ts idn u).1 := by
+  unfold updateData
+  repeat' split
+  all_goals first | exact h | exact secInv_stageCommit c n ts idn _ true h
+
+theorem secInv_removeMembers (c : Cl) (n ts idn : Nat) (who : List Nat) (h : SecInv c) : SecInv (removeMembers c n ts idn who).1 := by
+  unfold removeMembers
+  repeat' split
+  all_goals first | exact h | exact secInv_stageCommit c n ts idn _ true h
+
+theorem secInv_addMembers (c : Cl) (n ts idn : Nat) (who : List Nat) (h : SecInv c) : SecInv (addMembers c n ts idn who).1 := by
+  unfold addMembers
+  repeat' split
+  all_goals first | exact h | exact secInv_stageCommit c n ts idn _ true h
+
+theorem secInv_leave (c : Cl) (n ts idn : Nat) (h : SecInv c) : SecInv (leave c n ts idn).1 := by
+  unfold leave
+  repeat' split
+  all_goals first | exact h | exact ⟨fun _ => hasCur_ensureSecret c.g, h.2⟩
+
+theorem secInv_merge (c : Cl) (h : SecInv c) : SecInv (merge c).1 := by
+  unfold merge
+  split
+  · exact h
+  · split
+    · exact h
+    · split
+      · exact ⟨pendOK_syncRec (pendOK_mergeCommit _ _ h.1), h.2⟩
+      · exact ⟨pendOK_syncRec h.1, h.2⟩
+
+theorem secInv_clear (c : Cl) (h : SecInv c) : SecInv (clear c).1 := by
+  unfold clear
+  split
+  · exact h
+  · exact ⟨pendOK_of_none rfl, h.2⟩
+
+theorem secInv_restart (c : Cl) (h : SecInv c) : SecInv (restart c).1 := by
+  unfold restart
+  split
+  · refine ⟨h.1, ?_⟩
+    intro s hs
+    simp only [List.mem_map] at hs
+    obtain ⟨t, ht, rfl⟩ := hs
+    exact h.2 t ht
+  · exact h
+
+theorem secInv_join (c : Cl) (mp : Nat) (g : GState) (e : Ev) (h : SecInv c) : SecInv (join c (welcomeState mp g e)) := by
+  unfold join
+  split
+  · exact h
+  · exact ⟨pendOK_of_none rfl, fun s hs => by cases hs⟩
+
+theorem secInv_init (id : Nat) (p : Bool) (r : Nat) (ms as : List Nat) (name : Nat) : SecInv (initCl id p r ms as name) :=
+  ⟨pendOK_of_none rfl, fun s hs => by cases hs⟩
+
+open MdkVerif.Props.C08 (COp)
+
+/-- both invariants the one-sided steps use: the stored record mirrors the MLS state (`C08.Inv`) and `SecInv` -/
+def IInv (c : Cl) : Prop := MdkVerif.Props.C08.Inv c ∧ SecInv c
+
+theorem iinv_init (id : Nat) (p : Bool) (r : Nat) (ms as : List Nat) (name : Nat) : IInv (initCl id p r ms as name) :=
+  ⟨MdkVerif.Props.C08.inv_init id p r ms as name, secInv_init id p r ms as name⟩
+
+/-- every API call keeps them -/
+theorem iinv_rstep (c : Cl) (o : COp) (h : IInv c) : IInv (rstep c o).1 := by
+  cases o with
+  | deliver e nx => exact ⟨MdkVerif.Props.C08.inv_deliverN 3 nx c e h.1, secInv_deliverN 3 nx c e h.2⟩
+  | send n ts idn mid mts tok => exact ⟨MdkVerif.Props.C08.inv_send c n ts idn mid mts tok h.1, secInv_send c n ts idn mid mts tok h.2⟩
+  | stage n ts idn b na => exact ⟨MdkVerif.Props.C08.inv_stageCommit c n ts idn b na h.1, secInv_stageCommit c n ts idn b na h.2⟩
+  | data n ts idn u => exact ⟨MdkVerif.Props.C08.inv_updateData c n ts idn u h.1, secInv_updateData c n ts idn u h.2⟩
+  | remove n ts idn who => exact ⟨MdkVerif.Props.C08.inv_removeMembers c n ts idn who h.1, secInv_removeMembers c n ts idn who h.2⟩
+  | add n ts idn who => exact ⟨MdkVerif.Props.C08.inv_addMembers c n ts idn who h.1, secInv_addMembers c n ts idn who h.2⟩
+  | join mp g e => exact ⟨MdkVerif.Props.C08.inv_join c mp g e h.1, secInv_join c mp g e h.2⟩
+  | leave n ts idn => exact ⟨MdkVerif.Props.C08.inv_leave c n ts idn h.1, secInv_leave c n ts idn h.2⟩
+  | merge => exact ⟨MdkVerif.Props.C08.inv_merge c h.1, secInv_merge c h.2⟩
+  | clear => exact ⟨MdkVerif.Props.C08.inv_clear c h.1, secInv_clear c h.2⟩
+  | restart => exact ⟨MdkVerif.Props.C08.inv_restart c h.1, secInv_restart c h.2⟩
+
+instance (c : Cl) : Decidable (IInv c) := by unfold IInv MdkVerif.Props.C08.Inv; infer_instance
+
+/-! ## one-sided steps: a delivery without effect, in one run only -/
+
+/-- the event has a dedup record here that carries an epoch (it took effect: Processed, ProcessedCommit, Created) or that
+    blocks it already (Failed, EpochInvalidated) -/
+def known (c : Cl) (e : Ev) : Bool :=
+  match getRec c e.n with
+  | some r => r.epoch.isSome || r.state == 3 || r.state == 4
+  | none => false
+
+/-- `c1` is `c` after a delivery of event number `n` that had no effect: inside the relation with the record of `n`
+    free — and, if `c` held a record of `n` with an epoch, that record is unchanged or stuck now -/
+def Touch (n : Nat) (c c1 : Cl) : Prop :=
+  Eqv [] [n] [] c c1 ∧ ∀ r, getRec c n = some r → r.epoch.isSome = true → getRec c1 n = getRec c n ∨ Stuck (getRec c1 n)
+
+theorem touch_refl (n : Nat) (c : Cl) : Touch n c c := ⟨Eqv.refl _ _ _ c, fun _ _ _ => Or.inl rfl⟩
+
+theorem withSecret_eq_wc (c : Cl) : withSecret c = wc c (ens c.g.path c.g.secrets) c.g.consumed c.recs c.mgr := by
+  show ({ c with g := ensureSecret c.g } : Cl) = _
+  rw [ensureSecret_eq]; rfl
+
+theorem touch_withSecret (n : Nat) (c : Cl) (hp : PendOK c.g) : Touch n c (withSecret c) := by
+  refine ⟨⟨ens c.g.path c.g.secrets, c.g.consumed, c.recs, c.mgr, withSecret_eq_wc c, SecRel.ens_right hp, ConsRel.refl _ _,
+    RecRel.refl _ _ _, MRel.refl _ _⟩, fun _ _ _ => Or.inl rfl⟩
+
+theorem touch_setRec {n : Nat} {c c1 : Cl} (h : Touch n c c1) (v : Rec)
+    (hv : ∀ r, getRec c n = some r → r.epoch.isSome = true → (v.state = 3 ∨ v.state = 4) ∧ v.epoch.isSome = true) :
+    Touch n c (setRec c1 n v) := by
+  obtain ⟨⟨s, k, r, m, rfl, hs, hk, hr, hm⟩, _⟩ := h
+  refine ⟨⟨s, k, ainsert n v r, m, rfl, hs, hk, ?_, hm⟩, ?_⟩
+  · intro x
+    rw [alookup_ainsert]
+    by_cases hx : x = n
+    · exact Or.inr (Or.inr (by simp [hx]))
+    · simp only [hx, if_false]; exact hr x
+  · intro r0 h0 he
+    right
+    refine ⟨v, ?_, hv r0 h0 he⟩
+    show alookup n (ainsert n v r) = some v
+    exact alookup_ainsert_self n v r
+
+theorem failRec_stuck (r : Rec) (he : r.epoch.isSome = true) (b : Bool) (ep : Option Nat) :
+    ((failRec (some r) b ep).state = 3 ∨ (failRec (some r) b ep).state = 4) ∧ (failRec (some r) b ep).epoch.isSome = true := by
+  refine ⟨Or.inl rfl, ?_⟩
+  unfold failRec
+  cases ep with
+  | some x => rfl
+  | none => exact he
+
+/-- `record_failure` on a client whose record of `n` is still the original one -/
+theorem touch_recordFailure {n : Nat} {c c1 : Cl} (h : Touch n c c1) (hn : getRec c1 n = getRec c n) (b : Bool) (ep : Option Nat) :
+    Touch n c (recordFailure c1 n b ep) := by
+  rw [recordFailure_eq, hn]
+  refine touch_setRec h _ ?_
+  intro r h0 he
+  rw [h0]; exact failRec_stuck r he b ep
+
+theorem syncRec_of_synced (g : GState) (h : Synced g) : syncRec g = g := by
+  cases g
+  simp only [Synced] at h
+  obtain ⟨h1, h2, h3, h4, h5, h6⟩ := h
+  subst h1 h2 h3 h4 h5 h6
+  rfl
+
+theorem touch_returnOwnCommit {n : Nat} {c c1 : Cl} (h : Touch n c c1) (hs : Synced c1.g) : Touch n c (returnOwnCommit c1).1 := by
+  unfold returnOwnCommit
+  rw [syncRec_of_synced _ hs]; exact h
+
+theorem touch_failUnprocessable {n : Nat} {c c1 : Cl} (h : Touch n c c1) (e : Ev) (he : e.n = n) (hn : getRec c1 n = getRec c n) :
+    Touch n c (failUnprocessable c1 e).1 := by
+  unfold failUnprocessable
+  rw [he]; dsimp only; exact touch_recordFailure h hn _ _
+
+theorem touch_notBetterResult {n : Nat} {c c1 : Cl} (h : Touch n c c1) (e : Ev) (he : e.n = n) (hn : getRec c1 n = getRec c n)
+    (hs : Synced c1.g) : Touch n c (notBetterResult c1 e).1 := by
+  unfold notBetterResult
+  split
+  · split
+    · exact touch_returnOwnCommit h hs
+    · exact touch_failUnprocessable h e he hn
+  · exact touch_failUnprocessable h e he hn
+
+/-- **one pass over a handled event**: whatever the state, the delivery stays inside `Touch` -/
+theorem touch_step1_handled (retry : Cl → Option (Cl × Res)) (nx : Nat) (c : Cl) (e : Ev) (hi : IInv c)
+    (hg : routes c e = true) (hh : handledInner c e = true) : Touch e.n c (step1 retry nx c e).1 := by
+  have hw : Touch e.n c (withSecret c) := touch_withSecret e.n c hi.2.1
+  have hnw : getRec (withSecret c) e.n = getRec c e.n := rfl
+  unfold step1
+  simp only [hg, Bool.not_true, Bool.false_eq_true, if_false]
+  unfold handledInner at hh
+  by_cases hact : c.g.active = false
+  · simp only [hact, Bool.not_false, if_true]
+    exact touch_recordFailure (touch_refl _ _) rfl _ _
+  have hact' : c.g.active = true := by simpa using hact
+  have hs' : Synced (withSecret c).g := synced_withSecret c (hi.1.1 hact')
+  simp only [hact', Bool.not_true, Bool.false_eq_true, if_false]
+  split
+  · dsimp only; exact touch_recordFailure hw hnw _ _
+  · cases hk : e.kind with
+    | commit b sw =>
+      simp only [hk, Bool.and_eq_true, bne_iff_ne, ne_eq, Bool.not_eq_true'] at hh
+      obtain ⟨hne, hnb⟩ := hh
+      have h1 : (epochOf e.path != epochOf (withSecret c).g.path) = true := by simp [hne]
+      simp only [h1, if_true]
+      unfold wrongEpochCommit
+      simp only [withSecret_isBetter, hnb, Bool.false_eq_true, if_false]
+      exact touch_notBetterResult hw e rfl hnw hs'
+    | leave =>
+      simp only [hk, Bool.and_eq_true, bne_iff_ne, ne_eq] at hh
+      obtain ⟨hne, hc⟩ := hh
+      have h2 : (e.sender == c.id) = false := by simpa using hne
+      have hc' : (withSecret c).g.consumed.contains e.cipher = true := by rw [withSecret_consumed]; exact hc
+      simp only
+      split
+      · exact touch_failUnprocessable hw e rfl hnw
+      · simp only [withSecret_id, h2, Bool.false_eq_true, if_false, hc', if_true]
+        exact touch_failUnprocessable hw e rfl hnw
+    | app mid mts tok =>
+      simp only [hk] at hh
+      simp only
+      split
+      · exact touch_failUnprocessable hw e rfl hnw
+      · split
+        · exact touch_failUnprocessable hw e rfl hnw
+        · rcases (Bool.or_eq_true _ _).mp hh with h1 | h1
+          · simp only [Bool.and_eq_true, bne_iff_ne, ne_eq] at h1
+            have h2 : (e.sender == c.id) = false := by simpa using h1.1
+            have hc' : (withSecret c).g.consumed.contains e.cipher = true := by rw [withSecret_consumed]; exact h1.2
+            simp only [withSecret_id, h2, Bool.false_eq_true, if_false, hc', if_true]
+            exact touch_failUnprocessable hw e rfl hnw
+          · simp only [Bool.and_eq_true, beq_iff_eq] at h1
+            have he : (e.sender == c.id) = true := by simpa using h1.1
+            simp only [withSecret_id, he, if_true]
+            unfold ownMessage
+            simp only [withSecret_getRec]
+            cases hr : getRec c e.n with
+            | none => simp [hr] at h1
+            | some r =>
+              have h1s : r.state = 1 := by simpa [hr] using h1.2
+              simp only [h1s]
+              exact hw
+
+/-- **`process_message` on a handled event** (every fuel): the client stays inside `Touch` -/
+theorem touch_deliverN_handled (fuel nx : Nat) (c : Cl) (e : Ev) (hi : IInv c) (hh : handled c e = true) :
+    Touch e.n c (deliverN fuel nx c e).1 := by
+  unfold handled at hh
+  cases hr : getRec c e.n with
+  | some r =>
+    by_cases hb : (r.state == 3 || r.state == 4) = true
+    · cases fuel <;> simp only [deliverN, deliverOnce, hr, hb, if_true] <;> exact touch_refl _ _
+    · have hb' : (r.state == 3 || r.state == 4) = false := by simpa using hb
+      simp only [hr, hb', Bool.false_or, Bool.and_eq_true] at hh
+      cases fuel <;> simp only [deliverN, deliverOnce, hr, hb', Bool.false_eq_true, if_false]
+      · exact touch_step1_handled _ nx c e hi hh.1 hh.2
+      · exact touch_step1_handled _ nx c e hi hh.1 hh.2
+  | none =>
+    simp only [hr, Bool.false_or, Bool.and_eq_true] at hh
+    cases fuel <;> simp only [deliverN, deliverOnce, hr]
+    · exact touch_step1_handled _ nx c e hi hh.1 hh.2
+    · exact touch_step1_handled _ nx c e hi hh.1 hh.2
+
+/-- a record that blocks: the delivery returns at the dedup check, the client is untouched -/
+theorem blocked_deliverN' (fuel nx : Nat) (c : Cl) (e : Ev) (r : Rec) (hr : getRec c e.n = some r) (hs : r.state = 3 ∨ r.state = 4) :
+    (deliverN fuel nx c e).1 = c := by
+  cases fuel <;> simp only [deliverN, deliverOnce, hr] <;> rcases hs with hs | hs <;> simp [hs]
+
+theorem blocked_deliverN (fuel nx : Nat) (c : Cl) (e : Ev) (h : Stuck (getRec c e.n)) : (deliverN fuel nx c e).1 = c := by
+  obtain ⟨r, hr, hs, _⟩ := h
+  exact blocked_deliverN' fuel nx c e r hr hs
+
+/-! ### a refused delivery (C06): `Err`, `Unprocessable`, `PreviouslyFailed`, `IgnoredProposal` -/
+
+def refusal : Res → Bool
+  | .unprocessable | .previouslyFailed | .err _ | .ignored => true
+  | _ => false
+
+theorem eqv_right_setRecW {S W X : List Nat} {c c1 : Cl} (h : Eqv S W X c c1) (n : Nat) (v : Rec) (hn : n ∈ W) :
+    Eqv S W X c (setRec c1 n v) := by
+  obtain ⟨s, k, r, m, rfl, hs, hk, hr, hm⟩ := h
+  refine ⟨s, k, ainsert n v r, m, rfl, hs, hk, ?_, hm⟩
+  intro x
+  rw [alookup_ainsert]
+  by_cases hx : x = n
+  · exact Or.inr (Or.inr (by rw [hx]; exact hn))
+  · simp only [hx, if_false]; exact hr x
+
+theorem eqv_right_consume {S W X : List Nat} {c c1 : Cl} (h : Eqv S W X c c1) (x : Nat) (hx : x ∈ X) :
+    Eqv S W X c { c1 with g := { c1.g with consumed := x :: c1.g.consumed } } := by
+  obtain ⟨s, k, r, m, rfl, hs, hk, hr, hm⟩ := h
+  exact ⟨s, x :: k, r, m, rfl, hs, hk.cons_right x hx, hr, hm⟩
+
+/-- "if this outcome is a refusal, the client is the old one up to secrets / the record of `e.n` / the generation of `e.cipher`" -/
+def FrameE (e : Ev) (c : Cl) (r : Cl × Res) : Prop := refusal r.2 = true → Eqv [] [e.n] [e.cipher] c r.1
+
+theorem frameE_recordFailure (e : Ev) (c c1 : Cl) (h : Eqv [] [e.n] [e.cipher] c c1) (b : Bool) (ep : Option Nat) (res : Res) :
+    FrameE e c (recordFailure c1 e.n b ep, res) := by
+  intro _
+  rw [recordFailure_eq]
+  exact eqv_right_setRecW h e.n _ (by simp)
+
+theorem frameE_fail (e : Ev) (c c1 : Cl) (h : Eqv [] [e.n] [e.cipher] c c1) : FrameE e c (failUnprocessable c1 e) :=
+  frameE_recordFailure e c c1 h _ _ _
+
+theorem frameE_ownMessage (e : Ev) (c c1 : Cl) (h : Eqv [] [e.n] [e.cipher] c c1) : FrameE e c (ownMessage c1 e) := by
+  unfold FrameE ownMessage
+  repeat' split
+  all_goals first
+    | (intro _; exact h)
+    | (intro hr; simp [refusal] at hr; done)
+    | (intro hr; simp [refusal, returnOwnCommit] at hr; done)
+
+theorem frameE_notBetter (e : Ev) (c c1 : Cl) (h : Eqv [] [e.n] [e.cipher] c c1) : FrameE e c (notBetterResult c1 e) := by
+  unfold notBetterResult
+  split
+  · split
+    · intro hr; simp [refusal, returnOwnCommit] at hr
+    · exact frameE_fail e c c1 h
+  · exact frameE_fail e c c1 h
+
+/-- one pass, provided no rollback is triggered: refused ⇒ inside the relation -/
+theorem step1_refuse_eqv (retry : Cl → Option (Cl × Res)) (nx : Nat) (c : Cl) (e : Ev) (hp : PendOK c.g)
+    (hnb : isBetter c (epochOf e.path) e = false) : FrameE e c (step1 retry nx c e) := by
+  have hw : Eqv [] [e.n] [e.cipher] c (withSecret c) := (touch_withSecret e.n c hp).1.mono (fun _ h => h) (fun _ h => h) (fun _ h => by cases h)
+  unfold step1
+  split
+  · exact frameE_recordFailure e c c (Eqv.refl _ _ _ c) _ _ _
+  · split
+    · exact frameE_recordFailure e c c (Eqv.refl _ _ _ c) _ _ _
+    · simp only
+      split
+      · exact frameE_recordFailure e c _ hw _ _ _
+      · split
+        · -- commit
+          split
+          · unfold wrongEpochCommit
+            simp only [withSecret_isBetter, hnb, Bool.false_eq_true, if_false]
+            exact frameE_notBetter e c _ hw
+          · split
+            · split
+              · intro h; simp [refusal] at h
+              · exact frameE_ownMessage e c _ hw
+            · split
+              · exact frameE_fail e c _ hw
+              · unfold processCommit
+                split
+                · exact frameE_recordFailure e c _ (eqv_right_consume hw e.cipher (by simp)) _ _ _
+                · split <;> (intro h; simp [refusal] at h)
+        · -- leave
+          split
+          · exact frameE_fail e c _ hw
+          · split
+            · exact frameE_ownMessage e c _ hw
+            · split
+              · exact frameE_fail e c _ hw
+              · split <;> (intro h; simp [refusal] at h)
+        · -- app
+          split
+          · exact frameE_fail e c _ hw
+          · split
+            · exact frameE_fail e c _ hw
+            · split
+              · exact frameE_ownMessage e c _ hw
+              · split
+                · exact frameE_fail e c _ hw
+                · intro h; simp [refusal, storeApp] at h
+
+/-- **`process_message` refusing an event** (every fuel, no rollback triggered): the client stays inside the relation, with the
+    record of `e.n` free and the generation of `e.cipher` possibly consumed (the `NonAdmin` refusal decrypts first) -/
+theorem refused_eqv (fuel nx : Nat) (c : Cl) (e : Ev) (hp : PendOK c.g) (hnb : isBetter c (epochOf e.path) e = false)
+    (h : refusal (deliverN fuel nx c e).2 = true) : Eqv [] [e.n] [e.cipher] c (deliverN fuel nx c e).1 := by
+  have key : ∀ retry, FrameE e c (deliverOnce retry nx c e) := by
+    intro retry
+    unfold deliverOnce
+    split
+    · split
+      · intro _; exact Eqv.refl _ _ _ c
+      · exact step1_refuse_eqv retry nx c e hp hnb
+    · exact step1_refuse_eqv retry nx c e hp hnb
+  cases fuel with
+  | zero => exact key _ h
+  | succ f => exact key _ h
+
+/-! ## histories -/
+
+/-- a history: the final client and the results of ALL calls (`rstep` = `C08.cstep` with the result kept) -/
+def hist (c : Cl) : List COp → Cl × List Res
+  | [] => (c, [])
+  | o :: os => ((hist (rstep c o).1 os).1, (rstep c o).2 :: (hist (rstep c o).1 os).2)
+
+theorem hist_fst (c : Cl) (ops : List COp) : (hist c ops).1 = ops.foldl MdkVerif.Props.C08.cstep c := by
+  induction ops generalizing c with
+  | nil => rfl
+  | cons o os ih => simp only [hist, List.foldl, ih, rstep_fst]
+
+theorem hist_append (c : Cl) (a b : List COp) :
+    hist c (a ++ b) = ((hist (hist c a).1 b).1, (hist c a).2 ++ (hist (hist c a).1 b).2) := by
+  induction a generalizing c with
+  | nil => rfl
+  | cons o os ih => simp only [List.cons_append, hist, ih]
+
+theorem hist_length (c : Cl) (ops : List COp) : (hist c ops).2.length = ops.length := by
+  induction ops generalizing c with
+  | nil => rfl
+  | cons o os ih => simp only [hist, List.length_cons, ih]
+
+theorem iinv_hist (c : Cl) (ops : List COp) (h : IInv c) : IInv (hist c ops).1 := by
+  induction ops generalizing c with
+  | nil => exact h
+  | cons o os ih => exact ih _ (iinv_rstep c o h)
+
+/-- every state reachable from a created / joined group by API calls satisfies the invariants -/
+theorem iinv_reachable (id : Nat) (p : Bool) (r : Nat) (ms as : List Nat) (name : Nat) (ops : List COp) :
+    IInv (hist (initCl id p r ms as name) ops).1 := iinv_hist _ ops (iinv_init id p r ms as name)
+
+/-- what a both-sided step needs: a delivery's event number has the same record in both runs, is not in `W`, and its
+    ciphertext is not in `X` -/
+def StepOk (W X : List Nat) (c c' : Cl) : COp → Prop
+  | .deliver e _ => getRec c' e.n = getRec c e.n ∧ e.cipher ∉ X
+  | _ => True
+
+/-- **every API call is a simulation** -/
+theorem sim_rstep {S W X : List Nat} {c c' : Cl} (h : Eqv S W X c c') (o : COp) (hs : StepOk W X c c' o) :
+    ERes S W X (rstep c o) (rstep c' o) := by
+  cases o with
+  | deliver e nx => exact sim_deliver h e nx hs.1 hs.2
+  | send n ts idn mid mts tok => exact sim_send h n ts idn mid mts tok
+  | stage n ts idn b na => exact sim_stageCommit h n ts idn b na
+  | data n ts idn u => exact sim_updateData h n ts idn u
+  | remove n ts idn who => exact sim_removeMembers h n ts idn who
+  | add n ts idn who => exact sim_addMembers h n ts idn who
+  | join mp g e => exact eres_mk (sim_join h _)
+  | leave n ts idn => exact sim_leave h n ts idn
+  | merge => exact sim_merge h
+  | clear => exact sim_clear h
+  | restart => exact sim_restart h
+
+/-- the call is not a delivery of an event number in `W` or of a ciphertext in `X` -/
+def avoids (W X : List Nat) : COp → Bool
+  | .deliver e _ => !(W.contains e.n) && !(X.contains e.cipher)
+  | _ => true
+
+theorem stepOk_of_avoids {W X : List Nat} {c c' : Cl} (h : Eqv [] W X c c') (o : COp) (ha : avoids W X o = true) : StepOk W X c c' o := by
+  cases o with
+  | deliver e nx =>
+    simp only [avoids, Bool.and_eq_true, Bool.not_eq_true', List.contains_eq_mem, decide_eq_false_iff_not] at ha
+    refine ⟨?_, ha.2⟩
+    rcases h.recs e.n with h1 | ⟨h1, _⟩ | h1
+    · exact h1
+    · cases h1
+    · exact absurd h1 ha.1
+  | _ => trivial
+
+/-- **the simulation for histories, free records (C06)**: related clients run the same calls, none of which delivers an
+    event number of `W` or a ciphertext of `X`: every call answers the same, the clients stay related -/
+theorem hist_sim {W X : List Nat} (ops : List COp) {c c' : Cl} (h : Eqv [] W X c c') (ha : ops.all (avoids W X) = true) :
+    Eqv [] W X (hist c ops).1 (hist c' ops).1 ∧ (hist c' ops).2 = (hist c ops).2 := by
+  induction ops generalizing c c' with
+  | nil => exact ⟨h, rfl⟩
+  | cons o os ih =>
+    simp only [List.all_cons, Bool.and_eq_true] at ha
+    obtain ⟨h1, h2⟩ := sim_rstep h o (stepOk_of_avoids h o ha.1)
+    obtain ⟨i1, i2⟩ := ih h1 ha.2
+    exact ⟨i1, by simp only [hist, h2, i2]⟩
+
+/-! ### inserted re-deliveries (C07) -/
+
+/-- a history with inserted deliveries marked -/
+inductive IOp where
+  | orig (o : COp)
+  | ins (e : Ev) (nx : Nat)
+
+/-- the call delivers an event number of `S` -/
+def touches (S : List Nat) : COp → Bool
+  | .deliver e _ => S.contains e.n
+  | _ => false
+
+/-- the ORIGINAL history (inserted deliveries left out): final client, and the results of the original calls — but for
+    deliveries of an event number that was inserted BEFORE them (their answer may legitimately differ: the inserted call
+    may have left a Failed record) -/
+def runA (S : List Nat) (c : Cl) : List IOp → Cl × List Res
+  | [] => (c, [])
+  | .ins e _ :: os => runA (e.n :: S) c os
+  | .orig o :: os =>
+    ((runA S (rstep c o).1 os).1, if touches S o then (runA S (rstep c o).1 os).2 else (rstep c o).2 :: (runA S (rstep c o).1 os).2)
+
+/-- the history WITH the inserted deliveries: final client, results of the same original calls -/
+def runB (S : List Nat) (c : Cl) : List IOp → Cl × List Res
+  | [] => (c, [])
+  | .ins e nx :: os => runB (e.n :: S) (deliver c e nx).1 os
+  | .orig o :: os =>
+    ((runB S (rstep c o).1 os).1, if touches S o then (runB S (rstep c o).1 os).2 else (rstep c o).2 :: (runB S (rstep c o).1 os).2)
+
+/-- hypothesis of the insertion theorem, on the ORIGINAL run alone: every inserted event is handled and known where it is
+    inserted; every original delivery of an event number inserted before it is of a handled event -/
+def okIns (S : List Nat) (c : Cl) : List IOp → Bool
+  | [] => true
+  | .ins e _ :: os => handled c e && known c e && okIns (e.n :: S) c os
+  | .orig o :: os =>
+    (match o with
+     | .deliver e _ => !(S.contains e.n) || handled c e
+     | _ => true) && okIns S (rstep c o).1 os
+
+/-- the event numbers inserted -/
+def insNums (S : List Nat) : List IOp → List Nat
+  | [] => S
+  | .ins e _ :: os => insNums (e.n :: S) os
+  | .orig _ :: os => insNums S os
+
+theorem handled_transfer {S : List Nat} {c c' : Cl} (h : Eqv S [] [] c c') (e : Ev) (hn : getRec c' e.n = getRec c e.n) :
+    handled c' e = handled c e := by
+  have hb := h.isBetter (epochOf e.path) e
+  have hro := h.routes e
+  have hcons : c'.g.consumed.contains e.cipher = c.g.consumed.contains e.cipher := h.cons e.cipher (by simp)
+  have hid : c'.id = c.id := by obtain ⟨s, k, r, m, rfl, _⟩ := h; rfl
+  have hp : c'.g.path = c.g.path := by obtain ⟨s, k, r, m, rfl, _⟩ := h; rfl
+  unfold handled handledInner
+  rw [hn, hro, hb, hcons, hid, hp]
+
+theorem known_transfer {c c' : Cl} (e : Ev) (hn : getRec c' e.n = getRec c e.n) : known c' e = known c e := by
+  unfold known; rw [hn]
+
+/-- `Touch` plus `known`: the record of `n` is equal or stuck afterwards — the relation with `n` in `S` -/
+theorem touch_eqvS {c c1 : Cl} (e : Ev) (h : Touch e.n c c1) (hk : known c e = true) (hb : ∀ r, getRec c e.n = some r → (r.state = 3 ∨ r.state = 4) → c1 = c) :
+    Eqv [e.n] [] [] c c1 := by
+  unfold known at hk
+  cases hr : getRec c e.n with
+  | none => simp [hr] at hk
+  | some r0 =>
+    simp only [hr, Bool.or_eq_true, beq_iff_eq] at hk
+    by_cases hbl : r0.state = 3 ∨ r0.state = 4
+    · rw [hb r0 hr hbl]; exact Eqv.refl _ _ _ c
+    · have he : r0.epoch.isSome = true := by
+        rcases hk with (h1 | h1) | h1
+        · exact h1
+        · exact absurd (Or.inl h1) hbl
+        · exact absurd (Or.inr h1) hbl
+      obtain ⟨⟨s, k, r, m, rfl, hs, hkk, hrr, hm⟩, h2⟩ := h
+      refine ⟨s, k, r, m, rfl, hs, hkk, ?_, hm⟩
+      intro x
+      rcases hrr x with h1 | ⟨h1, _⟩ | h1
+      · exact Or.inl h1
+      · cases h1
+      · have hx : x = e.n := by simpa using h1
+        subst hx
+        rcases h2 r0 hr he with h3 | h3
+        · exact Or.inl h3
+        · exact Or.inr (Or.inl ⟨by simp, h3⟩)
+
+/-- **one-sided step, right run**: an inserted re-delivery of an event that is handled and known in the ORIGINAL run -/
+theorem ins_right {S : List Nat} {c c' : Cl} (h : Eqv S [] [] c c') (hi' : IInv c') (e : Ev) (nx : Nat)
+    (hh : handled c e = true) (hk : known c e = true) : Eqv (e.n :: S) [] [] c (deliver c' e nx).1 := by
+  have hmono : Eqv (e.n :: S) [] [] c c' := h.mono (fun _ hx => List.mem_cons_of_mem _ hx) (fun _ hx => hx) (fun _ hx => hx)
+  by_cases hn : getRec c' e.n = getRec c e.n
+  · have hh' : handled c' e = true := by rw [handled_transfer h e hn]; exact hh
+    have hk' : known c' e = true := by rw [known_transfer e hn]; exact hk
+    have ht := touch_deliverN_handled 3 nx c' e hi' hh'
+    have h1 := touch_eqvS e ht hk' (fun r hr hs => blocked_deliverN' 3 nx c' e r hr hs)
+    exact hmono.trans (h1.mono (fun _ hx => by rw [List.mem_singleton.mp hx]; exact List.mem_cons_self ..) (fun _ hx => hx) (fun _ hx => hx))
+  · rcases h.recs e.n with h1 | ⟨_, h1⟩ | h1
+    · exact absurd h1 hn
+    · have : (deliver c' e nx).1 = c' := blocked_deliverN 3 nx c' e h1
+      rw [this]; exact hmono
+    · cases h1
+
+/-- **one-sided step, left run**: the right run is blocked by a stuck record, the left run re-delivers a handled event -/
+theorem ins_left {S : List Nat} {c c' : Cl} (h : Eqv S [] [] c c') (hi : IInv c) (e : Ev) (nx : Nat)
+    (hn : getRec c' e.n ≠ getRec c e.n) (hh : handled c e = true) :
+    Eqv S [] [] (deliver c e nx).1 (deliver c' e nx).1 ∧ e.n ∈ S := by
+  rcases h.recs e.n with h1 | ⟨hS, h1⟩ | h1
+  · exact absurd h1 hn
+  · have : (deliver c' e nx).1 = c' := blocked_deliverN 3 nx c' e h1
+    rw [this]
+    exact ⟨h.left_step (touch_deliverN_handled 3 nx c e hi hh).1 (Or.inl ⟨hS, h1⟩), hS⟩
+  · cases h1
+
+/-- **the insertion theorem (engine)**: related clients (same records but for stuck ones of `S`); the left one runs the original
+    history, the right one the history with the inserted re-deliveries; under `okIns` (a condition on the LEFT run alone)
+    they end related — same `proj` — and every original call but the later deliveries of inserted event numbers answered
+    the same -/
+theorem ins_sim (ops : List IOp) {S : List Nat} {c c' : Cl} (h : Eqv S [] [] c c') (hi : IInv c) (hi' : IInv c')
+    (hok : okIns S c ops = true) :
+    Eqv (insNums S ops) [] [] (runA S c ops).1 (runB S c' ops).1 ∧ (runB S c' ops).2 = (runA S c ops).2 := by
+  induction ops generalizing S c c' with
+  | nil => exact ⟨h, rfl⟩
+  | cons o os ih =>
+    cases o with
+    | ins e nx =>
+      simp only [okIns, Bool.and_eq_true] at hok
+      simp only [runA, runB, insNums]
+      exact ih (ins_right h hi' e nx hok.1.1 hok.1.2) hi (iinv_rstep c' (.deliver e nx) hi') hok.2
+    | orig o =>
+      simp only [okIns, Bool.and_eq_true] at hok
+      simp only [runA, runB, insNums]
+      have hiA := iinv_rstep c o hi
+      have hiB := iinv_rstep c' o hi'
+      by_cases hs : StepOk [] [] c c' o
+      · obtain ⟨h1, h2⟩ := sim_rstep h o hs
+        obtain ⟨i1, i2⟩ := ih h1 hiA hiB hok.2
+        exact ⟨i1, by rw [h2, i2]⟩
+      · cases o with
+        | deliver e nx =>
+          have hn : getRec c' e.n ≠ getRec c e.n := fun hx => hs ⟨hx, by simp⟩
+          have hS : e.n ∈ S := by
+            rcases h.recs e.n with h1 | ⟨h1, _⟩ | h1
+            · exact absurd h1 hn
+            · exact h1
+            · cases h1
+          have hc : S.contains e.n = true := by simpa using hS
+          have hh : handled c e = true := by
+            have := hok.1
+            simp only [hc, Bool.not_true, Bool.false_or] at this
+            exact this
+          obtain ⟨h1, _⟩ := ins_left h hi e nx hn hh
+          obtain ⟨i1, i2⟩ := ih h1 hiA hiB hok.2
+          refine ⟨i1, ?_⟩
+          simp only [touches, hc, if_true]
+          exact i2
+        | _ => exact absurd trivial hs
+
 end MdkVerif.Client.Ins
